@@ -233,18 +233,39 @@ def stage_gen_trees(run, kinds, depth, ws=1, sample=0, muts=0, name="gen_trees",
 
 def stage_groups(run, casefile, trace_every=0, name="parse_groups", observe=False, sql=False, json=False):
     res = os.path.join(run.work, name + ".ndjson")
-    a = ["parse-groups", "-in", casefile, "-out", res]
-    if observe:
-        a.append("-observe")
-    if sql:
-        a.append("-sql")
-    if json:
-        a.append("-json")
+    n = count_lines(casefile)
+    k = NPROC if n >= 4000 else 1
+    outs, traces, argsets = [], [], []
+    for i in range(k):
+        o = os.path.join(run.work, "%s_%d.ndjson" % (name, i))
+        a = ["parse-groups", "-in", casefile, "-out", o, "-shard", "%d/%d" % (i, k)]
+        if observe:
+            a.append("-observe")
+        if sql:
+            a.append("-sql")
+        if json:
+            a.append("-json")
+        if trace_every:
+            t = os.path.join(run.work, "%s_trace_%d.ndjson" % (name, i))
+            a += ["-trace", t, "-trace-every", str(trace_every)]
+            traces.append(t)
+        outs.append(o)
+        argsets.append(a)
+    sums = run.harness_parallel(argsets)
+    cat_files(outs, res)
+    for o in outs:
+        os.remove(o)
     tr = None
     if trace_every:
         tr = os.path.join(run.work, name + "_trace.ndjson")
-        a += ["-trace", tr, "-trace-every", str(trace_every)]
-    s = run.harness(a)
+        cat_files(traces, tr)
+        for t in traces:
+            os.remove(t)
+    s = {}
+    for x in sums:
+        for kk, v in x.items():
+            if isinstance(v, (int, float)):
+                s[kk] = s.get(kk, 0) + v
     run.stage(name, **s)
     run.evaluations += s.get("calls", 0)
     return res, tr, s
